@@ -55,7 +55,9 @@ TCWrite ==
 ResponseConforms(d) == /\ d.result = 0 /\ d.ioChannel = 1003 /\ d.nchannels = 0
                        /\ \E k \in 1..Len(d.blocks) : d.blocks[k] = 3073
                        /\ \E k \in 1..Len(d.blocks) : d.blocks[k] = 3075
-LicenceGood(d) == /\ d.pflags = 3
+\* preamble flags (MS-RDPBCGR 2.2.1.12.1.1): low nibble = preamble version 2 (RDP 4.0) or 3 (RDP 5.0 and later),
+\* 0x80 = EXTENDED_ERROR_MSG_SUPPORTED; a conforming server may send any of the four combinations
+LicenceGood(d) == /\ d.pflags \in {2, 3, 130, 131}
                   /\ \/ d.msg = "NewLicense"
                      \/ d.msg = "ErrorAlert" /\ d.code = <<7, 0, 0, 0>> /\ d.transition = <<2, 0, 0, 0>>
 
